@@ -30,7 +30,7 @@ def graphs(ck):
         for combo in itertools.product(per_file, repeat=n):
             out.append((n, [list(c) for c in combo]))
     rng = ck.rng
-    for _ in range(200 if quick else 4000):
+    for _ in range(200 if quick else 40000):
         n = rng.choice([5, 6, 7])
         g = []
         for f in range(n):
